@@ -125,6 +125,12 @@ func (colorizeToolS) echoResetColor(out io.Writer) { //nolint:unused //no
 //
 
 func (colorizeToolS) translate(str string, initialColor ...color.Color) string {
+	if !strings.ContainsAny(str, "<&") {
+		// no markup: nothing to translate. (The HTML parser would drop
+		// leading blanks - even a line that is only padding - and turn CR
+		// into LF.)
+		return str
+	}
 	clr := color.FgDefault
 	for _, c := range initialColor {
 		clr = c
